@@ -34,7 +34,7 @@ NS = "Adept.Storage."
 REQUIRED = ["C07_failed_allocation_state", "C07_storageless_release_is_noop", "C07_inv_init", "C07_inv_step", "C07_inv_reachable", "C07_inv_meaning", "C07_freed_once", "C07_no_storage_fault", "C07_no_leak",
             "C07_gradients_exact", "C07_rejected_is_identity", "C07_rejected_op_erasable", "C07_view_ctor_rejects_first",
             "C07_shares_exactly", "C07_temporary_roundtrip", "C07_swap_exchanges", "C07_soft_external_hold_nothing",
-            "C07_assign_owns", "C07_assign_no_new_alias", "C07_assign_independent"]
+            "C07_assign_owns", "C07_assign_no_new_alias", "C07_assign_independent", "C07_view_zero_extent_canonical"]
 MODEL_FILE = ("AdeptModel/Storage.lean <-> Storage.h / Array.h / SpecialMatrix.h life cycle (ctor, dtor, views, link, clear, "
               "resize, =, move =, swap)")
 SRC = os.path.join(vbuild.VERIF, "harness", "drv_storage.cpp")
@@ -212,6 +212,8 @@ def expected_view(b, fn, a):
         return None
     if v[1] in ARR and (v[3] < 0 or v[4] < 0):
         return ("exc", "invalid_dimension")      # an Array never has a negative extent
+    if v[1] == "m" and (v[3] == 0 or v[4] == 0):
+        v = v[:3] + (0, 0) + v[5:]               # an empty selection is the canonical empty array: ALL extents zero (as resize)
     if v[1] in ACT and b.st == "-":
         return ("exc", "invalid_operation")      # an active view of data without a Storage has no gradient index
     return v
